@@ -122,8 +122,7 @@ PendingReject(st, q, n) ==
                            retained on every call makes the sum grow quadratically)
    Retention    a call never leaves more than limit + (bytes of this call) in the incomplete line,
                 nor more than the header block the limits allow + this call                     *)
-RECURSIVE SumCol(_, _, _)
-SumCol(cs, k, i) == IF i > Len(cs) THEN 0 ELSE cs[i][k] + SumCol(cs, k, i + 1)
+SumCol(cs, k, i) == FoldLeft(LAMBDA acc, c : acc + c[k], 0, cs)
 CallsClause(e, cfg) ==
     IF \E i \in 1..Len(e.calls) : e.calls[i][5] > cfg.wA * e.calls[i][1] + cfg.wB * e.calls[i][2] + cfg.wC
     THEN "SuperLinearWork"
